@@ -30,7 +30,14 @@ CONSTANTS FileSize,     \* size of the remote file, in units
           FixOwner,     \* TRUE: pipelined writes are registered under the file object, close() ends with _check_exception()
           FixExtent,    \* TRUE: a STATUS reply to a prefetch request removes its extent
           FixEofSave,   \* TRUE: an EOF status for a prefetch request is not saved as the file's pending exception
-          FixEmptyStart \* TRUE: _start_prefetch with nothing to request does not leave _prefetch_done = FALSE
+          FixEmptyStart,\* TRUE: _start_prefetch with nothing to request does not leave _prefetch_done = FALSE
+          BufSize,      \* read buffering of the file (open(..., bufsize)); 0 = none: read(n) asks for max(BufSize, n)
+          Whences,      \* subset of {0, 1, 2}: seek(p, SEEK_SET) / seek(+p, SEEK_CUR) / seek(-p, SEEK_END)
+          SeekFromRealpos, \* mutation: SEEK_CUR counts from the end of the read-ahead instead of the caller's position
+          ReqCap, ReqThresh,   \* flow control client -> server: credit for ReqCap requests, handed back in lumps of
+                               \* ReqThresh consumed requests (an SSH window adjust); 0 = unbounded pipe
+          RespCap, RespThresh, \* the same server -> client; a credit is handed back when the client has READ a response
+          SendUnderLock \* mutation: _async_request sends the packet while still holding SFTPClient._lock
 
 None == 0   \* request numbers start at 1
 VChunks == VOffs \X VLens
@@ -42,11 +49,15 @@ VARIABLES nextreq, expecting, srvq, resp,
           app,                  \* the application thread (record, see AppIdle)
           nops, closed,
           pfs,                  \* prefetch threads: Seq of [todo, pc ("send" | "reg"), num, cur, maxc]
-          obs                   \* the read that completed last: [pos, want, got, vec] (for the properties)
-proto == <<nextreq, expecting, srvq, resp>>
+          obs,                  \* the read that completed last: [pos, want, got, vec] (for the properties)
+          rb,                   \* bytes of read-ahead in BufferedFile._rbuffer: the caller's position is realpos - rb
+          apos,                 \* ghost: the position the application's calls have asked for (seek / read semantics)
+          flow                  \* flow control and SFTPClient._lock: [rc, rn, sc, sn, lock, inhand]
+proto == <<nextreq, expecting, srvq, resp, flow>>
 pfst  == <<prefetching, pfdone, extents, pdata, savedExc>>
+bufv  == <<rb, apos>>
 vars  == <<nextreq, expecting, srvq, resp, realpos, prefetching, pfdone, extents, pdata, savedExc,
-           reqs, werr, raised, app, nops, closed, pfs, obs>>
+           reqs, werr, raised, app, nops, closed, pfs, obs, rb, apos, flow>>
 
 Min(a, b) == IF a < b THEN a ELSE b
 Max(a, b) == IF a < b THEN b ELSE a
@@ -58,22 +69,38 @@ RemoveAt(s, i) == [j \in 1..(Len(s) - 1) |-> IF j < i THEN s[j] ELSE s[j + 1]]
 
 AppIdle == [pc |-> "idle", rpos |-> 0, want |-> 0, got |-> 0, vq |-> <<>>, vec |-> FALSE, num |-> None]
 NoObs == [pos |-> 0, want |-> 0, got |-> 0, vec |-> FALSE, set |-> FALSE]
+NoPkt == [num |-> None, kind |-> "none", len |-> 0, rk |-> "none"]
 
 Init ==
   /\ nextreq = 1 /\ expecting = Empty /\ srvq = <<>> /\ resp = <<>>
   /\ realpos = 0 /\ prefetching = FALSE /\ pfdone = FALSE /\ extents = Empty /\ pdata = Empty
   /\ savedExc = "none" /\ reqs = <<>> /\ werr = FALSE /\ raised = FALSE
   /\ app = AppIdle /\ nops = 0 /\ closed = FALSE /\ pfs = <<>> /\ obs = NoObs
+  /\ rb = 0 /\ apos = 0
+  /\ flow = [rc |-> ReqCap, rn |-> 0, sc |-> RespCap, sn |-> 0, lock |-> FALSE, inhand |-> NoPkt]
 
-\* _async_request: allocate a number, register the owner, put the request on the wire
+\* flow control: a sender needs credit; the receiver hands consumed credit back in lumps
+ReqRoom  == ReqCap = 0 \/ flow.rc > 0
+RespRoom == RespCap = 0 \/ flow.sc > 0
+TakeReqCredit(f)  == IF ReqCap = 0 THEN f ELSE [f EXCEPT !.rc = @ - 1]
+ConsumeReq(f)  == IF ReqCap = 0 THEN f
+                  ELSE IF f.rn + 1 >= ReqThresh THEN [f EXCEPT !.rc = @ + f.rn + 1, !.rn = 0] ELSE [f EXCEPT !.rn = @ + 1]
+ConsumeResp(f) == IF RespCap = 0 THEN f
+                  ELSE IF f.sn + 1 >= RespThresh THEN [f EXCEPT !.sc = @ + f.sn + 1, !.sn = 0] ELSE [f EXCEPT !.sn = @ + 1]
+
+\* _async_request (application thread): take SFTPClient._lock, allocate a number, register the owner, release,
+\* put the request on the wire (blocks while the peer grants no credit)
 AsyncReq(owner, kind, off, len) ==
+  /\ ~flow.lock /\ ReqRoom
+  /\ flow' = TakeReqCredit(flow)
   /\ expecting' = Put(expecting, nextreq, owner)
   /\ srvq' = Append(srvq, [num |-> nextreq, kind |-> kind, off |-> off, len |-> len])
   /\ nextreq' = nextreq + 1
 
 (* ------------------------------ server ------------------------------ *)
 Serve ==
-  /\ srvq # <<>>
+  /\ srvq # <<>> /\ RespRoom
+  /\ flow' = ConsumeReq(IF RespCap = 0 THEN flow ELSE [flow EXCEPT !.sc = @ - 1])
   /\ LET q == Head(srvq) IN
        \E r \in
           (CASE q.kind = "read" ->
@@ -88,24 +115,35 @@ Serve ==
           /\ resp' = Append(resp, r)
           /\ werr' = (werr \/ (q.kind = "write" /\ r.kind = "err"))
   /\ srvq' = Tail(srvq)
-  /\ UNCHANGED <<nextreq, expecting, realpos, pfst, reqs, raised, app, nops, closed, pfs, obs>>
+  /\ UNCHANGED <<nextreq, expecting, realpos, pfst, reqs, raised, app, nops, closed, pfs, obs, bufv>>
 
 (* ------------------------------ prefetch threads ------------------------------ *)
 \* the busy-wait of _prefetch_thread: issue only while fewer than maxc extents are registered
 PfMayIssue(t) == t.maxc = 0 \/ Cardinality(Dom(extents)) < t.maxc
-PfSendEnabled(i) == pfs[i].pc = "send" /\ pfs[i].todo # <<>> /\ PfMayIssue(pfs[i])
+PfWants(i) == pfs[i].todo # <<>> /\ PfMayIssue(pfs[i])
+PfSendEnabled(i) == \/ (pfs[i].pc = "send" /\ PfWants(i) /\ ~flow.lock /\ ReqRoom)
+                    \/ (pfs[i].pc = "locked" /\ ReqRoom)
 PfSend(i) ==    \* num = self.sftp._async_request(self, CMD_READ, ...)
   /\ PfSendEnabled(i)
-  /\ AsyncReq("file", "read", Head(pfs[i].todo)[1], Head(pfs[i].todo)[2])
+  /\ expecting' = Put(expecting, nextreq, "file")
+  /\ srvq' = Append(srvq, [num |-> nextreq, kind |-> "read", off |-> Head(pfs[i].todo)[1], len |-> Head(pfs[i].todo)[2]])
+  /\ nextreq' = nextreq + 1
+  /\ flow' = [TakeReqCredit(flow) EXCEPT !.lock = FALSE]
   /\ pfs' = [pfs EXCEPT ![i] = [@ EXCEPT !.pc = "reg", !.num = nextreq, !.cur = Head(pfs[i].todo),
                                          !.todo = Tail(pfs[i].todo)]]
-  /\ UNCHANGED <<resp, realpos, pfst, reqs, werr, raised, app, nops, closed, obs>>
+  /\ UNCHANGED <<resp, realpos, pfst, reqs, werr, raised, app, nops, closed, obs, bufv>>
+\* the mutation: the thread has taken SFTPClient._lock and now sits in send() with no credit, still holding it
+PfBlockHoldingLock(i) ==
+  /\ SendUnderLock /\ pfs[i].pc = "send" /\ PfWants(i) /\ ~flow.lock /\ ~ReqRoom
+  /\ pfs' = [pfs EXCEPT ![i] = [@ EXCEPT !.pc = "locked"]]
+  /\ flow' = [flow EXCEPT !.lock = TRUE]
+  /\ UNCHANGED <<nextreq, expecting, srvq, resp, realpos, pfst, reqs, werr, raised, app, nops, closed, obs, bufv>>
 PfRegister(i) ==  \* with self._prefetch_lock: self._prefetch_extents[num] = (offset, length)
   /\ pfs[i].pc = "reg"
   /\ extents' = Put(extents, pfs[i].num, pfs[i].cur)
   /\ pfs' = IF pfs[i].todo = <<>> THEN RemoveAt(pfs, i)            \* thread ends
             ELSE [pfs EXCEPT ![i] = [@ EXCEPT !.pc = "send"]]
-  /\ UNCHANGED <<proto, realpos, prefetching, pfdone, pdata, savedExc, reqs, werr, raised, app, nops, closed, obs>>
+  /\ UNCHANGED <<proto, realpos, prefetching, pfdone, pdata, savedExc, reqs, werr, raised, app, nops, closed, obs, bufv>>
 PfCanMove == \E i \in 1..Len(pfs) : PfSendEnabled(i) \/ pfs[i].pc = "reg"
 
 (* ------------------------------ application thread ------------------------------ *)
@@ -152,10 +190,13 @@ AsyncResponse(r) ==
 
 \* One iteration of SFTPClient._read_response(waitfor): Got(r) = the application's state when the awaited
 \* response r arrives, onNone = its state when a single check (waitfor = None) returns
+\* _read_packet() first (that frees the peer's credit), then SFTPClient._lock for the lookup in _expecting.  When the
+\* lock is held by a sender the packet already read stays in the reader's hand (flow.inhand, see AppTakeBlocked).
 ReadRespStep(waitfor, Got(_), onNone) ==
-  /\ resp # <<>>
-  /\ LET r == Head(resp) IN
-     /\ resp' = Tail(resp)
+  /\ (flow.inhand.num # None \/ resp # <<>>) /\ ~flow.lock
+  /\ LET r == IF flow.inhand.num # None THEN flow.inhand ELSE Head(resp) IN
+     /\ resp' = IF flow.inhand.num # None THEN resp ELSE Tail(resp)
+     /\ flow' = IF flow.inhand.num # None THEN [flow EXCEPT !.inhand = NoPkt] ELSE ConsumeResp(flow)
      /\ IF r.num \notin Dom(expecting)
           THEN /\ app' = IF waitfor = None THEN onNone ELSE app
                /\ UNCHANGED <<expecting, extents, pdata, pfdone, savedExc>>
@@ -169,19 +210,27 @@ ReadRespStep(waitfor, Got(_), onNone) ==
                          /\ app' = IF waitfor = None THEN onNone ELSE app
 
 \* ---- BufferedFile.read(want) at rpos: loop of _read until `want` bytes or EOF ----
+\* `got` counts the bytes in _rbuffer (including read-ahead); the call returns the first `want` of them
 ReadDone(a) == [AppIdle EXCEPT !.pc = IF a.vq # <<>> THEN "rv_next" ELSE "idle", !.vq = a.vq]
-ObsOf(a) == [pos |-> a.rpos, want |-> a.want, got |-> a.got, vec |-> a.vec, set |-> TRUE]
+Result(a) == Min(a.want, a.got)
+ObsOf(a) == [pos |-> a.rpos, want |-> a.want, got |-> Result(a), vec |-> a.vec, set |-> TRUE]
+Finished(a) == /\ app' = ReadDone(a) /\ obs' = ObsOf(a)          \* read() returns
+               /\ rb' = a.got - Result(a) /\ apos' = apos + Result(a)
+Failed(a)   == /\ app' = AppIdle /\ raised' = TRUE                \* IOError out of read(): what was fetched stays buffered
+               /\ rb' = a.got /\ UNCHANGED <<apos, obs>>
+\* the size BufferedFile.read passes to _read, capped by SFTPFile._read at MAX_REQUEST_SIZE
+Ask(a) == Min(IF BufSize > 0 THEN Max(BufSize, a.want - a.got) ELSE a.want - a.got, Chunk)
 
 RdLoop ==     \* while len(self._rbuffer) < size: new_data = self._read(read_size)
   /\ app.pc = "rd_loop"
   /\ IF app.got >= app.want
-       THEN /\ app' = ReadDone(app) /\ obs' = ObsOf(app)
+       THEN /\ Finished(app)
             /\ UNCHANGED <<proto, prefetching>>
        ELSE IF prefetching
-         THEN /\ app' = [app EXCEPT !.pc = "pf_loop"] /\ UNCHANGED <<proto, prefetching, obs>>
-         ELSE /\ AsyncReq("sync", "read", realpos, Min(app.want - app.got, Chunk))
+         THEN /\ app' = [app EXCEPT !.pc = "pf_loop"] /\ UNCHANGED <<proto, prefetching, obs, bufv>>
+         ELSE /\ AsyncReq("sync", "read", realpos, Ask(app))
               /\ app' = [app EXCEPT !.pc = "wait_read", !.num = nextreq]
-              /\ UNCHANGED <<resp, prefetching, obs>>
+              /\ UNCHANGED <<resp, prefetching, obs, bufv>>
   /\ UNCHANGED <<realpos, pfdone, extents, pdata, savedExc, reqs, werr, raised, nops, closed, pfs>>
 
 \* _read_prefetch loop (sftp_file.py:149-177)
@@ -189,31 +238,31 @@ PfLoopHit ==      \* data for realpos is buffered: consume (up to the asked size
   /\ app.pc = "pf_loop" /\ BufFor(realpos) # -1
   /\ LET idx == BufFor(realpos)
          avail == pdata[idx] - (realpos - idx)
-         k == Min(avail, Min(app.want - app.got, Chunk))
+         k == Min(avail, Ask(app))
          rest == Remove(pdata, idx)
          withHead == IF realpos > idx THEN Put(rest, idx, realpos - idx) ELSE rest
          withTail == IF k < avail THEN Put(withHead, realpos + k, avail - k) ELSE withHead
      IN /\ pdata' = withTail /\ realpos' = realpos + k
         /\ app' = [app EXCEPT !.pc = "rd_loop", !.got = app.got + k]
-  /\ UNCHANGED <<proto, prefetching, pfdone, extents, savedExc, reqs, werr, raised, nops, closed, pfs, obs>>
+  /\ UNCHANGED <<proto, prefetching, pfdone, extents, savedExc, reqs, werr, raised, nops, closed, pfs, obs, bufv>>
 PfLoopGiveUp ==   \* nothing buffered and prefetch finished: self._prefetching = False; fall back to a plain read
   /\ app.pc = "pf_loop" /\ BufFor(realpos) = -1 /\ pfdone
   /\ prefetching' = FALSE
-  /\ AsyncReq("sync", "read", realpos, Min(app.want - app.got, Chunk))
+  /\ AsyncReq("sync", "read", realpos, Ask(app))
   /\ app' = [app EXCEPT !.pc = "wait_read", !.num = nextreq]
-  /\ UNCHANGED <<resp, realpos, pfdone, extents, pdata, savedExc, reqs, werr, raised, nops, closed, pfs, obs>>
+  /\ UNCHANGED <<resp, realpos, pfdone, extents, pdata, savedExc, reqs, werr, raised, nops, closed, pfs, obs, bufv>>
 PfLoopWait ==     \* self.sftp._read_response(); self._check_exception()
   /\ app.pc = "pf_loop" /\ BufFor(realpos) = -1 /\ ~pfdone
   /\ LET nxt == [app EXCEPT !.pc = "pf_check"] IN
        ReadRespStep(None, LAMBDA r : nxt, nxt)
-  /\ UNCHANGED <<nextreq, srvq, realpos, prefetching, reqs, werr, raised, nops, closed, pfs, obs>>
+  /\ UNCHANGED <<nextreq, srvq, realpos, prefetching, reqs, werr, raised, nops, closed, pfs, obs, bufv>>
 PfCheck ==
   /\ app.pc = "pf_check"
   /\ IF savedExc = "eof"          \* EOFError leaves _read; BufferedFile.read takes it for end of file
-       THEN /\ savedExc' = "none" /\ app' = ReadDone(app) /\ obs' = ObsOf(app) /\ UNCHANGED raised
+       THEN /\ savedExc' = "none" /\ Finished(app) /\ UNCHANGED raised
      ELSE IF savedExc = "err"     \* IOError propagates to the application (a readv generator dies with it)
-       THEN /\ savedExc' = "none" /\ app' = AppIdle /\ raised' = TRUE /\ UNCHANGED obs
-     ELSE /\ app' = [app EXCEPT !.pc = "pf_loop"] /\ UNCHANGED <<savedExc, raised, obs>>
+       THEN /\ savedExc' = "none" /\ Failed(app)
+     ELSE /\ app' = [app EXCEPT !.pc = "pf_loop"] /\ UNCHANGED <<savedExc, raised, obs, bufv>>
   /\ UNCHANGED <<proto, realpos, prefetching, pfdone, extents, pdata, reqs, werr, nops, closed, pfs>>
 WaitRead ==       \* t, msg = self.sftp._request(CMD_READ, ...)
   /\ app.pc = "wait_read"
@@ -222,14 +271,14 @@ WaitRead ==       \* t, msg = self.sftp._request(CMD_READ, ...)
                              ELSE IF r.kind = "eof" THEN [app EXCEPT !.pc = "rd_eof"]
                              ELSE [app EXCEPT !.pc = "rd_err"],
                   app)
-  /\ UNCHANGED <<nextreq, srvq, realpos, prefetching, reqs, werr, raised, nops, closed, pfs, obs>>
+  /\ UNCHANGED <<nextreq, srvq, realpos, prefetching, reqs, werr, raised, nops, closed, pfs, obs, bufv>>
 RdGot ==
   /\ app.pc \in {"rd_got", "rd_eof", "rd_err"}
   /\ CASE app.pc = "rd_got" -> /\ realpos' = realpos + app.num
                                /\ app' = [app EXCEPT !.pc = "rd_loop", !.got = app.got + app.num, !.num = None]
-                               /\ UNCHANGED <<raised, obs>>
-       [] app.pc = "rd_eof" -> /\ app' = ReadDone(app) /\ obs' = ObsOf(app) /\ UNCHANGED <<realpos, raised>>
-       [] app.pc = "rd_err" -> /\ app' = AppIdle /\ raised' = TRUE /\ UNCHANGED <<realpos, obs>>
+                               /\ UNCHANGED <<raised, obs, bufv>>
+       [] app.pc = "rd_eof" -> /\ Finished(app) /\ UNCHANGED <<realpos, raised>>
+       [] app.pc = "rd_err" -> /\ Failed(app) /\ UNCHANGED realpos
   /\ UNCHANGED <<proto, pfst, reqs, werr, nops, closed, pfs>>
 
 \* ---- _start_prefetch(chunks, maxc) ----
@@ -241,8 +290,8 @@ StartPrefetch(chunks, maxc) ==
 
 RvNext ==        \* for x in chunks: self.seek(x[0]); yield self.read(x[1])
   /\ app.pc = "rv_next"
-  /\ IF app.vq = <<>> THEN app' = AppIdle /\ UNCHANGED realpos
-     ELSE /\ realpos' = Head(app.vq)[1]
+  /\ IF app.vq = <<>> THEN app' = AppIdle /\ UNCHANGED <<realpos, bufv>>
+     ELSE /\ realpos' = Head(app.vq)[1] /\ rb' = 0 /\ apos' = Head(app.vq)[1]
           /\ app' = [AppIdle EXCEPT !.pc = "rd_loop", !.rpos = Head(app.vq)[1], !.want = Head(app.vq)[2],
                                     !.vq = Tail(app.vq), !.vec = TRUE]
   /\ UNCHANGED <<proto, pfst, reqs, werr, raised, nops, closed, pfs, obs>>
@@ -255,33 +304,43 @@ PrefetchChunks == LET n == (FileSize - realpos + Chunk - 1) \div Chunk IN
 \* ---- op start ----
 StartOp(op) ==
   /\ app.pc = "idle" /\ nops < MaxOps /\ ~closed /\ op \in Ops
-  /\ nops' = nops + 1 /\ obs' = NoObs
+  /\ nops' = nops + 1
   /\ CASE op = "prefetch" ->          \* SFTPFile.prefetch(file_size, maxc)
             /\ Len(pfs) < MaxThreads
             /\ \E maxc \in Limits :
                  IF PrefetchChunks = <<>> THEN UNCHANGED <<pfs, prefetching, pfdone>>
                  ELSE StartPrefetch(PrefetchChunks, maxc)
-            /\ UNCHANGED <<app, proto, realpos, reqs, closed>>
-       [] op = "read" ->              \* SFTPFile.read(n) at the current position
-            /\ \E n \in ReadSizes : app' = [AppIdle EXCEPT !.pc = "rd_loop", !.rpos = realpos, !.want = n]
+            /\ obs' = NoObs /\ UNCHANGED <<app, proto, realpos, reqs, closed, bufv>>
+       [] op = "read" ->              \* BufferedFile.read(n) at the caller's position realpos - rb
+            /\ \E n \in ReadSizes :
+                 IF n <= rb          \* served from the read-ahead buffer
+                   THEN /\ rb' = rb - n /\ apos' = apos + n /\ UNCHANGED app
+                        /\ obs' = [pos |-> realpos - rb, want |-> n, got |-> n, vec |-> FALSE, set |-> TRUE]
+                   ELSE /\ app' = [AppIdle EXCEPT !.pc = "rd_loop", !.rpos = realpos - rb, !.want = n, !.got = rb]
+                        /\ rb' = 0 /\ obs' = NoObs /\ UNCHANGED apos
             /\ UNCHANGED <<proto, pfs, prefetching, pfdone, realpos, reqs, closed>>
-       [] op = "seek" -> /\ \E p \in SeekPos : realpos' = p
-                         /\ UNCHANGED <<app, proto, pfs, prefetching, pfdone, reqs, closed>>
+       [] op = "seek" ->              \* SFTPFile.seek(offset, whence); the read-ahead is dropped
+            /\ \E p \in SeekPos, w \in Whences :
+                 LET here == IF SeekFromRealpos THEN realpos ELSE realpos - rb
+                     target == CASE w = 0 -> p [] w = 1 -> here + p [] OTHER -> FileSize - p
+                     asked  == CASE w = 0 -> p [] w = 1 -> apos + p [] OTHER -> FileSize - p
+                 IN target >= 0 /\ asked >= 0 /\ realpos' = target /\ apos' = asked /\ rb' = 0
+            /\ obs' = NoObs /\ UNCHANGED <<app, proto, pfs, prefetching, pfdone, reqs, closed>>
        [] op = "readv" ->             \* SFTPFile.readv(chunks, maxc)
             /\ Len(pfs) < MaxThreads
             /\ \E cs \in VSeqs, maxc \in Limits :
                  /\ StartPrefetch(Plan(cs), maxc)
                  /\ app' = [AppIdle EXCEPT !.pc = "rv_next", !.vq = cs]
-            /\ UNCHANGED <<proto, realpos, reqs, closed>>
+            /\ obs' = NoObs /\ UNCHANGED <<proto, realpos, reqs, closed, bufv>>
        [] op = "write" ->             \* pipelined SFTPFile._write
             /\ AsyncReq(IF FixOwner THEN "file" ELSE "nobody", "write", realpos, 1)
             /\ reqs' = Append(reqs, nextreq)
             /\ app' = IF Len(reqs) + 1 > PipeLimit /\ resp # <<>>      \* ... and self.sftp.sock.recv_ready()
                         THEN [AppIdle EXCEPT !.pc = "drain"] ELSE app
-            /\ UNCHANGED <<resp, pfs, prefetching, pfdone, realpos, closed>>
+            /\ obs' = NoObs /\ UNCHANGED <<resp, pfs, prefetching, pfdone, realpos, closed, bufv>>
        [] op = "stat" ->              \* any synchronous request (stat / listdir / chmod / ...)
             /\ AsyncReq("sync", "stat", 0, 0) /\ app' = [AppIdle EXCEPT !.pc = "wait_sync", !.num = nextreq]
-            /\ UNCHANGED <<resp, pfs, prefetching, pfdone, realpos, reqs, closed>>
+            /\ obs' = NoObs /\ UNCHANGED <<resp, pfs, prefetching, pfdone, realpos, reqs, closed, bufv>>
        [] op = "close" ->             \* SFTPFile._close
             /\ IF FixOwner
                  THEN app' = [AppIdle EXCEPT !.pc = "finish"] /\ UNCHANGED proto
@@ -289,40 +348,40 @@ StartOp(op) ==
                  THEN app' = [AppIdle EXCEPT !.pc = "drain_close"] /\ UNCHANGED proto
                  ELSE /\ AsyncReq("sync", "close", 0, 0) /\ UNCHANGED resp    \* _finish_responses(self): nothing registered
                       /\ app' = [AppIdle EXCEPT !.pc = "wait_close", !.num = nextreq]
-            /\ UNCHANGED <<pfs, prefetching, pfdone, realpos, reqs, closed>>
+            /\ obs' = NoObs /\ UNCHANGED <<pfs, prefetching, pfdone, realpos, reqs, closed, bufv>>
   /\ UNCHANGED <<extents, pdata, savedExc, werr, raised>>
 
 \* ---- other continuations ----
 WaitSync ==  \* _request: self._read_response(num)
   /\ app.pc \in {"wait_sync", "wait_close"}
   /\ ReadRespStep(app.num, LAMBDA r : [AppIdle EXCEPT !.pc = IF app.pc = "wait_close" THEN "closed" ELSE "idle"], app)
-  /\ UNCHANGED <<nextreq, srvq, realpos, prefetching, reqs, werr, raised, nops, closed, pfs, obs>>
+  /\ UNCHANGED <<nextreq, srvq, realpos, prefetching, reqs, werr, raised, nops, closed, pfs, obs, bufv>>
 Closed == /\ app.pc = "closed" /\ closed' = TRUE /\ app' = AppIdle
-          /\ UNCHANGED <<proto, realpos, pfst, reqs, werr, raised, nops, pfs, obs>>
+          /\ UNCHANGED <<proto, realpos, pfst, reqs, werr, raised, nops, pfs, obs, bufv>>
 
 \* draining pipelined write statuses: while len(self._reqs): req = popleft(); _read_response(req)
 DrainSkip ==   \* repaired _write/_close: an id whose status was already consumed elsewhere is not awaited
   /\ app.pc \in {"drain", "drain_close"} /\ reqs # <<>> /\ FixOwner /\ Head(reqs) \notin Dom(expecting)
   /\ reqs' = Tail(reqs)
-  /\ UNCHANGED <<proto, realpos, pfst, werr, raised, app, nops, closed, pfs, obs>>
+  /\ UNCHANGED <<proto, realpos, pfst, werr, raised, app, nops, closed, pfs, obs, bufv>>
 Drain ==
   /\ app.pc \in {"drain", "drain_close"} /\ reqs # <<>>
   /\ ~(FixOwner /\ Head(reqs) \notin Dom(expecting))
   /\ ReadRespStep(Head(reqs), LAMBDA r : [app EXCEPT !.pc = IF r.kind = "err" THEN "drain_err" ELSE "drained1"], app)
-  /\ UNCHANGED <<nextreq, srvq, realpos, prefetching, reqs, werr, raised, nops, closed, pfs, obs>>
+  /\ UNCHANGED <<nextreq, srvq, realpos, prefetching, reqs, werr, raised, nops, closed, pfs, obs, bufv>>
 Drained1 ==
   /\ app.pc \in {"drained1", "drain_err"}
   /\ reqs' = Tail(reqs)
   /\ raised' = (raised \/ app.pc = "drain_err")          \* _convert_status raises IOError out of write()/close()
   /\ app' = IF app.pc = "drain_err" THEN AppIdle ELSE [app EXCEPT !.pc = "drain"]
-  /\ UNCHANGED <<proto, realpos, pfst, werr, nops, closed, pfs, obs>>
+  /\ UNCHANGED <<proto, realpos, pfst, werr, nops, closed, pfs, obs, bufv>>
 DrainEnd ==
   /\ app.pc \in {"drain", "drain_close"} /\ reqs = <<>>
   /\ IF app.pc = "drain_close"
        THEN /\ AsyncReq("sync", "close", 0, 0) /\ UNCHANGED resp
             /\ app' = [AppIdle EXCEPT !.pc = "wait_close", !.num = nextreq]
        ELSE app' = AppIdle /\ UNCHANGED proto
-  /\ UNCHANGED <<realpos, pfst, reqs, werr, raised, nops, closed, pfs, obs>>
+  /\ UNCHANGED <<realpos, pfst, reqs, werr, raised, nops, closed, pfs, obs, bufv>>
 
 \* repaired close: _finish_responses(self) - while self in _expecting.values(): _read_response(); _check_exception() -
 \* then a final _check_exception(), then CMD_CLOSE
@@ -337,18 +396,29 @@ Finish ==
          ELSE /\ AsyncReq("sync", "close", 0, 0) /\ app' = [AppIdle EXCEPT !.pc = "wait_close", !.num = nextreq]
               /\ reqs' = <<>>
               /\ UNCHANGED <<resp, extents, pdata, pfdone, savedExc, raised>>
-  /\ UNCHANGED <<realpos, prefetching, werr, nops, closed, pfs, obs>>
+  /\ UNCHANGED <<realpos, prefetching, werr, nops, closed, pfs, obs, bufv>>
 FinishCheck ==
   /\ app.pc = "finish_check"
   /\ IF savedExc # "none"
        THEN /\ raised' = (raised \/ savedExc = "err") /\ savedExc' = "none" /\ app' = AppIdle
        ELSE app' = [app EXCEPT !.pc = "finish"] /\ UNCHANGED <<savedExc, raised>>
-  /\ UNCHANGED <<proto, realpos, prefetching, pfdone, extents, pdata, reqs, werr, nops, closed, pfs, obs>>
+  /\ UNCHANGED <<proto, realpos, prefetching, pfdone, extents, pdata, reqs, werr, nops, closed, pfs, obs, bufv>>
+
+\* the reader has a packet in its hand and waits for SFTPClient._lock (only a sender stuck in send() holds it that long)
+AppWaitsToRead == \/ app.pc \in {"wait_sync", "wait_read", "wait_close"}
+                  \/ (app.pc \in {"drain", "drain_close"} /\ reqs # <<>> /\ ~(FixOwner /\ Head(reqs) \notin Dom(expecting)))
+                  \/ (app.pc = "finish" /\ \E n \in Dom(expecting) : expecting[n] = "file")
+                  \/ (app.pc = "pf_loop" /\ BufFor(realpos) = -1 /\ ~pfdone)
+AppTakeBlocked ==
+  /\ AppWaitsToRead /\ flow.lock /\ flow.inhand.num = None /\ resp # <<>>
+  /\ resp' = Tail(resp)
+  /\ flow' = [ConsumeResp(flow) EXCEPT !.inhand = Head(resp)]
+  /\ UNCHANGED <<nextreq, expecting, srvq, realpos, pfst, reqs, werr, raised, app, nops, closed, pfs, obs, bufv>>
 
 Next == \/ \E op \in Ops : StartOp(op)
         \/ RdLoop \/ PfLoopHit \/ PfLoopGiveUp \/ PfLoopWait \/ PfCheck \/ WaitRead \/ RdGot \/ RvNext
         \/ WaitSync \/ Closed \/ Drain \/ DrainSkip \/ Drained1 \/ DrainEnd \/ Finish \/ FinishCheck
-        \/ Serve \/ \E i \in 1..Len(pfs) : PfSend(i) \/ PfRegister(i)
+        \/ Serve \/ AppTakeBlocked \/ \E i \in 1..Len(pfs) : PfSend(i) \/ PfRegister(i) \/ PfBlockHoldingLock(i)
 Spec == Init /\ [][Next]_vars
 
 (* ------------------------------ properties ------------------------------ *)
@@ -358,11 +428,13 @@ Expect(pos, want) == ExpectAt(FileSize, pos, want)
 ReadExact == obs.set => obs.got = Expect(obs.pos, obs.want)
 \* C30 (client half) / C28: with the server answering every request the application is never stuck:
 \* when it sits in _read_response something is, or will be, there to read
-AppWaiting == \/ app.pc \in {"wait_sync", "wait_read", "wait_close"}
-              \/ (app.pc \in {"drain", "drain_close"} /\ reqs # <<>> /\ ~(FixOwner /\ Head(reqs) \notin Dom(expecting)))
-              \/ (app.pc = "finish" /\ \E n \in Dom(expecting) : expecting[n] = "file")
-              \/ (app.pc = "pf_loop" /\ BufFor(realpos) = -1 /\ ~pfdone)
-NoHang == AppWaiting => (resp # <<>> \/ srvq # <<>> \/ PfCanMove)
+AppWaiting == AppWaitsToRead
+AppCanRead == (flow.inhand.num # None \/ resp # <<>>) /\ ~flow.lock
+AppCanTake == flow.lock /\ flow.inhand.num = None /\ resp # <<>>
+ServerCanMove == srvq # <<>> /\ RespRoom
+NoHang == AppWaiting => (AppCanRead \/ AppCanTake \/ ServerCanMove \/ PfCanMove)
+\* C28 "reads (with any seeks) ... at the requested offsets": between calls the file is where the calls put it
+PosAgrees == app.pc = "idle" => realpos - rb = apos
 \* C29: a rejected pipelined write is reported no later than close()
 WriteErrorSurfaces == closed => (werr => raised)
 =============================================================================
